@@ -4,6 +4,9 @@
    resolution is the kernel's, bounded by its own limit of 40). *)
 From XcpModel Require Import Base Backup Paths Walker.
 From XcpProofs Require Import WalkerProofs.
+From XcpModel Require Import Extracted.
+From XcpProofs Require Import ExtractedOk.
+From Coq Require Import String.
 
 (* no link operation is ever emitted when dereferencing *)
 Theorem C13_deref_no_links : forall keep dex nc r t acts ok a,
@@ -45,7 +48,12 @@ Example C13_nonvacuous :
   ([WMkdir []; WMkdir [[108]]; WSize 4; WCopy [[108]; [102]] 4; WSize 9; WCopy [[109]] 9], true).
 Proof. vm_compute. reflexivity. Qed.
 
+(* ---- tie to the current source (translator): the walk follows links exactly when dereferencing ---- *)
+Theorem C13_src_walk_follows_links_iff_deref : nth 1 x_walker_iterator ""%string = "follow_links(config.dereference)"%string.
+Proof. reflexivity. Qed.
+
 Print Assumptions C13_deref_no_links.
 Print Assumptions C13_deref_dangling_cyclic_fail.
 Print Assumptions C13_deref_image.
 Print Assumptions C13_walk_processes_image.
+Print Assumptions C13_src_walk_follows_links_iff_deref.
